@@ -420,6 +420,48 @@ func runCase(phase string, i int) worker.Result {
 		})
 	}
 
+	// ---- the same Repository value with its exported fields changed between
+	// requests: every request must go to the current Reference's host and
+	// repository slot, with the current scheme
+	for step := 0; step < 2; step++ {
+		nb, _ := genBase(rng, func() string {
+			if rng.IntN(5) == 0 {
+				return pick(rng, []string{"docker.io", "registry-1.docker.io", "index.docker.io"})
+			}
+			return genRegistry(rng)
+		}, func() string { return genRepository(rng) }, "basetag", dg)
+		how := pick(rng, []string{"registry", "repository", "both", "scheme", "both+scheme"})
+		switch how {
+		case "registry":
+			repo.Reference.Registry = nb.Registry
+		case "repository":
+			repo.Reference.Repository = nb.Repository
+		case "both", "both+scheme":
+			repo.Reference.Registry, repo.Reference.Repository = nb.Registry, nb.Repository
+		}
+		if how == "scheme" || how == "both+scheme" {
+			repo.PlainHTTP = !repo.PlainHTTP
+		}
+		base = parts{Registry: repo.Reference.Registry, Repository: repo.Reference.Repository}
+		plain = repo.PlainHTTP
+		baseStr = fmt.Sprintf("%s (fields changed: %s, step %d)", repo.Reference.String(), how, step+1)
+		res.Count("url_field_change_steps", 1)
+		res.Observe("url_field_changes", how)
+		evalRepo(st, repo, tag)
+		evalRepo(st, repo, base.Registry+"/"+base.Repository+":"+tag)
+		ms, bs := string(mdesc.Digest), string(bdesc.Digest)
+		run("Resolve", "manifests", tag, []string{tag, ms}, tag, true, func() error { _, err := repo.Resolve(ctx, tag); return err })
+		run("FetchReference", "manifests", dg, []string{dg, ms}, dg, true, func() error { _, rc, err := repo.FetchReference(ctx, dg); return closeRC(rc, err) })
+		run("Tag", "manifests", tag, []string{tag, ms}, tag, true, func() error { return repo.Tag(ctx, mdesc, tag) })
+		run("Blobs.Resolve", "blobs", bs, []string{bs}, bs, true, func() error { _, err := repo.Blobs().Resolve(ctx, bs); return err })
+		run("Fetch(manifest)", "manifests", ms, []string{ms}, ms, true, func() error { rc, err := repo.Fetch(ctx, mdesc); return closeRC(rc, err) })
+		run("Exists(blob)", "blobs", bs, []string{bs}, bs, true, func() error { _, err := repo.Exists(ctx, bdesc); return err })
+		run("Delete(manifest)", "manifests", ms, []string{ms}, ms, true, func() error { return repo.Delete(ctx, mdesc) })
+		run("Referrers", "referrers", ms, []string{ms}, ms, true, func() error {
+			return repo.Referrers(ctx, mdesc, "", func([]ocispec.Descriptor) error { return nil })
+		})
+	}
+
 	toResult(st, &res)
 	res.Count("url_requests_judged", nreq)
 	res.Count("url_operations_ok", okOps)
